@@ -229,16 +229,42 @@ impl ImmutContext<'_> {
     fn get_closure(&self, items: &[StateItem]) -> State {
         let mut queue: VecDeque<StateItem> = items.iter().cloned().collect();
         let mut items = Oset::new();
+        #[cfg(feature = "verif")]
+        crate::verif::record(|| crate::verif::Event::Closure {
+            kind: "start",
+            item: None,
+            items: queue.iter().cloned().collect(),
+        });
 
         while let Some(next) = queue.pop_front() {
             if items.contains(&next) {
+                #[cfg(feature = "verif")]
+                crate::verif::record(|| crate::verif::Event::Closure {
+                    kind: "skip",
+                    item: Some(next.clone()),
+                    items: vec![],
+                });
                 continue;
             }
 
+            #[cfg(feature = "verif")]
+            let verif_len = queue.len();
             self.enqueue_closure_implied_items(&mut queue, &next);
+            #[cfg(feature = "verif")]
+            crate::verif::record(|| crate::verif::Event::Closure {
+                kind: "expand",
+                item: Some(next.clone()),
+                items: queue.iter().skip(verif_len).cloned().collect(),
+            });
             items.insert(next);
         }
 
+        #[cfg(feature = "verif")]
+        crate::verif::record(|| crate::verif::Event::Closure {
+            kind: "end",
+            item: None,
+            items: items.to_vec(),
+        });
         State { items }
     }
 
